@@ -11,7 +11,7 @@ import numpy as np
 
 from mc.engine import hbfs, par
 from mc.engine.report import Violation
-from mc.engine.seams import Canon, ScriptedRandom, ScriptExhausted
+from mc.engine.seams import Canon, ScriptedRandom, ScriptExhausted, public_snapshot
 
 import ECAgent.Core as Core
 
@@ -126,9 +126,27 @@ class Harness:
         return w
 
     def ops(self, w):
-        return [o for o in self._ops if (o[0] == 'add') != (o[1] in w.order)]
+        return [['observe']] + [o for o in self._ops if (o[0] == 'add') != (o[1] in w.order)]
 
     def apply(self, w, op):
+        if op[0] == 'observe':
+            # plain reads as an operation: every query once, picks and shuffles with the model's own generator, the
+            # returned lists vandalised - whatever the library remembers from this must not show in later answers
+            env = w.model.environment
+            for tmpl in TEMPLATES:
+                for tag in TAGS:
+                    kw = {} if tag is None else {'tag': tag_value(tag)}
+                    targs = [TYPES[t] for t in tmpl]
+                    got = env.get_agents(*targs, **kw)
+                    if [self._key(w, a) for a in got] != self._ref(w, tmpl, tag):
+                        raise Violation(f'residents {w.order} template {list(tmpl)} tag {tag}: get_agents differs from '
+                                        f'the exact filter', expected=self._ref(w, tmpl, tag),
+                                        observed=[self._key(w, a) for a in got])
+                    got.reverse()
+                    got.append(None)
+                    env.get_random_agent(*targs, **kw)
+                    env.shuffle(*targs, **kw)
+            return
         if op[0] == 'add':
             w.model.environment.add_agent(w.agents[op[1]])
             w.order.append(op[1])
@@ -158,7 +176,7 @@ class Harness:
                 list(e2) != w.by:
             raise Violation('queries on a second model\'s environment are disturbed by the environment under test')
         env = w.model.environment
-        snap = self.cn(w.model, [w.agents[k] for k in self.keys])
+        snap = public_snapshot(w.model, [w.agents[k] for k in self.keys])
         real_rng = w.model.random
         answers = []
         for tmpl in TEMPLATES:
@@ -245,7 +263,7 @@ class Harness:
                     raise Violation(f'{what}: a query consumed the global random / numpy.random generator')
                 answers.append((tmpl, tag, tuple(exp)))
         w.model.random = real_rng
-        if self.cn(w.model, [w.agents[k] for k in self.keys]) != snap:
+        if public_snapshot(w.model, [w.agents[k] for k in self.keys]) != snap:
             raise Violation(f'residents {w.order}: queries altered the environment')
         if [self._key(w, a) for a in env] != w.order:
             raise Violation('environment iteration differs from joining order')
